@@ -541,4 +541,60 @@ theorem readAll_good (c : Cfg) (hg : c.g = true) (n : Nat) : ∀ (k : Nat) (s : 
           | err e => simp only []; exact ⟨h2, fun hf r hr => by simp at hr; rw [hr]; simp⟩
           | fuel => simp only []; exact ⟨h2, fun hf r hr => by simp at hr; rw [hr]; exact hne hf⟩
 
+/-- a successful `Parser.Term` consumed at least its end token -/
+theorem readTerm_ok (c : Cfg) (hg : c.g = true) (n : Nat) (s s' : PS Zip) (t : Term)
+    (h : readTerm c n s = (.ok t, s')) : Mono 1 s.buf s'.buf := by
+  unfold readTerm at h
+  have ih1 := (allGood c hg n).term 1201 s
+  cases ht : Read0.term c n 1201 s with
+  | mk r s1 =>
+    rw [ht] at ih1 h
+    have h1 : Mono 0 s.buf s1.buf := ih1.1
+    cases r with
+    | fuel => simp at h
+    | err e => cases e <;> simp at h
+    | ok t1 =>
+      simp only [] at h
+      cases hn : (Buf.next s1.buf : Option Token × Zip) with
+      | mk o b2 =>
+        rw [hn] at h
+        cases o with
+        | none => simp only [hg, ↓reduceIte] at h; simp at h
+        | some u =>
+          have h2 : Mono 1 s.buf b2 := by simpa using h1.next hn
+          simp only [] at h
+          by_cases hu : u.kind = Kind.end_
+          · simp only [hu, ↓reduceIte] at h
+            simp at h
+            rw [← h.2]; simpa using h2
+          · simp only [hu, ↓reduceIte] at h; simp at h
+
+/-- the loop `for p.More() { p.Term() … }` makes at most (tokens left) + 1 calls of `Term`, whatever `k` -/
+theorem readAll_length (c : Cfg) (hg : c.g = true) (n : Nat) : ∀ (k : Nat) (s : PS Zip),
+    (readAll c n k s).1.length ≤ s.buf.rem + 1
+  | 0, s => by unfold readAll; simp
+  | k + 1, s => by
+    unfold readAll
+    have hm := more_mono s.buf
+    cases hmo : more s.buf with
+    | mk b b1 =>
+      rw [hmo] at hm
+      cases b with
+      | false => simp
+      | true =>
+        simp only [] at hm ⊢
+        have hr1 := hm.rem
+        cases hr : readTerm c n (withBuf s b1) with
+        | mk r s2 =>
+          cases r with
+          | ok t =>
+            simp only []
+            have h1 := readTerm_ok c hg n (withBuf s b1) s2 t hr
+            have := h1.rem
+            have ih := readAll_length c hg n k s2
+            simp at this ⊢
+            omega
+          | err e => simp
+          | fuel => simp
+
 end PrologVerif.Read0
